@@ -444,6 +444,94 @@ def printing_shard(args):
     return agg
 
 
+# ------------------------------------------------------------------------------------------------
+# texts whose value crosses the largest finite double at their very last digit, for every text -> number path
+
+def boundary_texts():
+    out = []
+    # radix parsers: all lengths around the overflow threshold (hex 256/257 digits, octal 341..343, decimal 308..310),
+    # leading digit and filler swept, with and without leading zeros
+    for fn, digits, lens in (("std.parseHex", "0123456789abcdefABCDEF", range(250, 262)),
+                             ("std.parseOctal", "01234567", range(336, 348)),
+                             ("std.parseInt", "0123456789", range(304, 314))):
+        top = digits[-1] if fn != "std.parseHex" else "f"
+        for n in lens:
+            for lead in sorted(set([digits[1], digits[2], digits[len(digits) // 3], top, "7", "1"]) & set(digits)):
+                for fill in ("0", top):
+                    for zeros in ("", "000"):
+                        out.append((fn, zeros + lead + fill * (n - 1)))
+        for n in (1, 2, 31, 32, 33, 64, 128, 200, 400, 1000):
+            out.append((fn, top * n))
+            out.append((fn, "1" + "0" * (n - 1)))
+    for t in list(out):
+        if t[0] == "std.parseInt":
+            out.append((t[0], "-" + t[1]))
+    # decimal texts at the rounding boundary between the largest double and overflow
+    for m in ("17976931348623157", "179769313486231570", "17976931348623158", "179769313486231580814527423731704356798070",
+              "179769313486231580793728971405303415079934", "179769313486231580793728971405303415079935", "17976931348623159", "1797693134862316", "18", "2", "9"):
+        for form in ("%s" + "0" * (309 - len(m)) if len(m) <= 309 else None, "%se" + str(309 - len(m)), "0.%se309", "%s.0e" + str(309 - len(m)),
+                     "%s" + "0" * (309 - len(m)) + ".5" if len(m) <= 309 else None):
+            if form is None:
+                continue
+            text = form % m if "%s" in form else form
+            for fn in ("std.parseJson", "std.parseYaml", "literal", "neg_literal"):
+                out.append((fn, text))
+    for t in ("0x" + "f" * 256, "0x" + "f" * 255, "0x1" + "0" * 256, "0x8" + "0" * 255, "0o" + "7" * 342, "0o1" + "7" * 341,
+              "0o2" + "0" * 341, "0o1" + "0" * 342, "0o4" + "0" * 341):
+        out.append(("std.parseYaml", t))
+        out.append(("std.parseYaml", "a: " + t))
+    return out
+
+
+def boundary_shard(args):
+    cases, = args
+    agg = Agg()
+    ev = Ev(agg)
+    try:
+        for fn, text in cases:
+            if fn == "literal":
+                src = text
+            elif fn == "neg_literal":
+                src = "-" + text
+            else:
+                src = "%s(%s)" % (fn, common.jstr(text))
+            r = ev.run(src)
+            if not gate(agg, r, src[:120] + ("..." if len(src) > 120 else ""), "boundary_text"):
+                continue
+            agg.nontrivial.add(common.h64(src))
+            agg.count("boundary_text:%s:%s" % (fn, r.cls if r.cls != "error" else r.kind))
+    finally:
+        ev.close()
+    return agg
+
+
+def yaml_shard(args):
+    """Structured YAML (anchors on values / keys / items / collections, aliases in every position, flow and block
+    styles, scalars that read as numbers beyond the finite doubles): every number anywhere in the result is finite."""
+    seed, n = args
+    import genyaml
+    rng = random.Random(seed)
+    agg = Agg()
+    ev = Ev(agg)
+    g = genyaml.Gen(rng)
+    try:
+        for i in range(n):
+            doc = g.stream()
+            src = "std.parseYaml(%s)" % common.jstr(doc)
+            r = ev.run(src)
+            if not gate(agg, r, src[:400], "yaml_anchors"):
+                continue
+            agg.nontrivial.add(common.h64(src))
+            agg.count("yaml:" + (r.cls if r.cls != "error" else "error"))
+            if i < 1:
+                agg.sample({"leg": "yaml_anchors", "document": doc[:300], "outcome": r.brief()})
+        for st in g.stats:
+            agg.add("yaml_anchor_alias_positions", st)
+    finally:
+        ev.close()
+    return agg
+
+
 def run(tier, seed):
     t0 = time.time()
     quick = tier != "thorough"
@@ -475,6 +563,12 @@ def run(tier, seed):
     shards = [(seed * 41 + i, 100 if quick else 5000) for i in range(16)]
     for a in common.pmap(parse_shard, shards):
         total.merge(a)
+    bt = boundary_texts()
+    total.count("boundary_texts", len(bt))
+    for a in common.pmap(boundary_shard, [(bt[i::16],) for i in range(16)]):
+        total.merge(a)
+    for a in common.pmap(yaml_shard, [(seed * 53 + i, 500 if quick else 30000) for i in range(16)]):
+        total.merge(a)
     shards = [(seed * 43 + i, 1500 if quick else 60000) for i in range(16)]
     for a in common.pmap(literals_shard, shards):
         total.merge(a)
@@ -483,7 +577,11 @@ def run(tier, seed):
         total.merge(a)
     rule = ("finiteness gate (deep walk of the Value API, not the manifested text) on: 10 binary operators over pairs "
             f"of a {len(GRID)}-point boundary grid (+ - * / also compared with IEEE arithmetic), every std function "
-            "of arity 1-4 on number tuples, array folds (sum/avg/foldl/...), parse functions on overflowing texts; "
+            "of arity 1-4 on number tuples, array folds (sum/avg/foldl/...), parse functions on overflowing texts; texts whose value crosses the largest double at "
+            "their last digit for every text->number path (parseHex/parseOctal/parseInt at every length around the threshold x "
+            "leading digit x filler x leading zeros x sign, decimal texts on both sides of the rounding boundary through "
+            "literals/parseJson/parseYaml, 0x/0o YAML scalars); structured YAML with anchors on values/keys/items/collections "
+            "and aliases in every position over scalars that read as out-of-range numbers; "
             "decimal literals (halfway cases, up to 400 digits, underscores, threshold exponents) vs Python float() "
             "bitwise; printed numbers on 10 manifest paths read back bitwise and have the shortest digit count. "
             "distinct_nontrivial = distinct operator/builtin applications with a numeric result, literals with more "
